@@ -6,6 +6,7 @@ CONSTANTS
   AngleGuard = TRUE
   FontFix = TRUE
   BgFix = TRUE
+  TrackAttribution = FALSE
   AttrEscapes = 0
   EmitEdges = FALSE
 INIT Init
